@@ -48,6 +48,13 @@ func (propC06) Gen(seed uint64, tier string, idx int) *Plan2 {
 			g = append(g, r.n(4))
 		}
 		p.Params["gauges"] = g
+		if r.n(3) == 0 {
+			var st []any
+			for i := 0; i < n; i++ {
+				st = append(st, r.n(3))
+			}
+			p.Params["stray"] = st
+		}
 	} else {
 		p.Sub = strat + "/concurrent"
 		p.Params["mode"] = "conc"
@@ -126,12 +133,23 @@ func (propC06) Exec(p *Plan2, res *Result2) {
 	if p.Str("mode", "seq") == "seq" {
 		res.Nontrivial = true
 		res.Sig = histHash([]string{p.Str("endpoints", ""), strat, fmt.Sprint(p.Params["gauges"])}, nil)
-		// gauges
+		// gauges: some releases arrive when nothing is held (double release, release after an eviction);
+		// they leave the count at zero, and what is acquired afterwards counts in full
+		truth := map[string]int64{}
+		sv, _ := p.Params["stray"].([]any)
+		for i, e := range eps {
+			if i < len(sv) {
+				for k := 0; k < int(toF(sv[i])); k++ {
+					sel.DecrementConnections(e)
+				}
+			}
+		}
 		gv, _ := p.Params["gauges"].([]any)
 		for i, e := range eps {
 			if i < len(gv) {
 				for k := 0; k < int(toF(gv[i])); k++ {
 					sel.IncrementConnections(e)
+					truth[e.URLString]++
 				}
 			}
 		}
@@ -198,7 +216,7 @@ func (propC06) Exec(p *Plan2, res *Result2) {
 				res.add("C06", "C06/least-connections/bad-selection", "list [%s] -> %v %v", desc(), got, err)
 				return
 			}
-			g := coll.GetConnectionStats()
+			g := truth // connections actually held, not what the collector says about them
 			min := int64(1 << 60)
 			for _, e := range routable {
 				if g[e.URLString] < min {
